@@ -4,43 +4,37 @@ import MythVerif.Proofs.WsQueueTsoStepF8
 namespace MythVerif.WsqTso
 open MythVerif.Wsq
 
-set_option maxHeartbeats 4000000 in
 theorem f_O_shift_pt4 (s : St) (lo0 hi0 off0 : Int) (rest : List Sto) (e off) : Inv s → s.opc = .pt4 e off →
     s.bufO = .shift lo0 hi0 off0 :: rest → Inv (applySto { s with bufO := rest } (.shift lo0 hi0 off0)) := by
   intro h hpc hb
   obtain ⟨rfl, rfl, rfl, hres⟩ := shift_head s h lo0 hi0 off0 rest hb
   have hmw := mwin_shift s.A s.ptr s.lb s.lt s.sh h.len (fun k hk => h.mwin k hk (Or.inr hres))
   simp only [applySto]
-  cases h; simp only [hpc, ownerLocked, carry, resetting, ownerFlight] at *
+  tso_coreO h hpc [pt4]
   constructor
-  all_goals (try simp only [ownerLocked, carry, resetting, ownerFlight, upd_apply, applySto])
   case mwin => intro k hk _; exact hmw k hk
-  tso_rest
+  tso_goalsO h hpc
 
-set_option maxHeartbeats 4000000 in
 theorem f_O_shift_pt5 (s : St) (lo0 hi0 off0 : Int) (rest : List Sto) (e off) : Inv s → s.opc = .pt5 e off →
     s.bufO = .shift lo0 hi0 off0 :: rest → Inv (applySto { s with bufO := rest } (.shift lo0 hi0 off0)) := by
   intro h hpc hb
   obtain ⟨rfl, rfl, rfl, hres⟩ := shift_head s h lo0 hi0 off0 rest hb
   have hmw := mwin_shift s.A s.ptr s.lb s.lt s.sh h.len (fun k hk => h.mwin k hk (Or.inr hres))
   simp only [applySto]
-  cases h; simp only [hpc, ownerLocked, carry, resetting, ownerFlight] at *
+  tso_coreO h hpc [pt5]
   constructor
-  all_goals (try simp only [ownerLocked, carry, resetting, ownerFlight, upd_apply, applySto])
   case mwin => intro k hk _; exact hmw k hk
-  tso_rest
+  tso_goalsO h hpc
 
-set_option maxHeartbeats 4000000 in
 theorem f_O_shift_pt6 (s : St) (lo0 hi0 off0 : Int) (rest : List Sto) (e) : Inv s → s.opc = .pt6 e →
     s.bufO = .shift lo0 hi0 off0 :: rest → Inv (applySto { s with bufO := rest } (.shift lo0 hi0 off0)) := by
   intro h hpc hb
   obtain ⟨rfl, rfl, rfl, hres⟩ := shift_head s h lo0 hi0 off0 rest hb
   have hmw := mwin_shift s.A s.ptr s.lb s.lt s.sh h.len (fun k hk => h.mwin k hk (Or.inr hres))
   simp only [applySto]
-  cases h; simp only [hpc, ownerLocked, carry, resetting, ownerFlight] at *
+  tso_coreO h hpc [pt6]
   constructor
-  all_goals (try simp only [ownerLocked, carry, resetting, ownerFlight, upd_apply, applySto])
   case mwin => intro k hk _; exact hmw k hk
-  tso_rest
+  tso_goalsO h hpc
 
 end MythVerif.WsqTso
